@@ -56,10 +56,12 @@ def lane_setup():
         raise SystemExit("HARNESS: native module lacks _verif_set_contention_hook (guarded hook commit missing)")
     setter(_hook)
     _st["lseq"] = lseq
+    from basilisp.lang import vector as vec
+    _st["vec"] = vec
     for n in ("cons", "first", "rest", "next", "seq", "count", "nth", "map", "filter", "concat", "iterate",
-              "iterator-seq", "realized?", "take", "doall", "vec"):
+              "iterator-seq", "realized?", "take", "doall", "vec", "drop", "take-while", "keep"):
         _fns[n] = common.core_fn(n)
-    trace.register_lisp_ns(common.core_ns(), ["map", "filter", "iterate"], "core.lpy")
+    trace.register_lisp_ns(common.core_ns(), ["map", "filter", "iterate", "take", "drop", "take-while", "keep"], "core.lpy")
 
 
 def preflight():
@@ -102,7 +104,7 @@ def gen(rng, tier, index):
                 c["sleep"] = 0.01
         if source == "iterator" and rng.random() < 0.3:
             cells[rng.randrange(n)]["throw_first"] = True
-    stages = ["map", "filter", "concat"]
+    stages = ["map", "filter", "concat", "map", "filter", "concat", "take", "drop", "take-while", "map2", "keep"]
     pipeline = rng.choice([[], [], [rng.choice(stages)], [rng.choice(stages)], [rng.choice(stages), rng.choice(stages)]])
     consumers = []
     for _ in range(rng.choice([2, 2, 3])):
@@ -167,7 +169,7 @@ def describe():
     return {
         "rule": "workload = source of 2-8 instrumented cells (lazy-seq producers that yield, sleep, throw on first call, "
                 "touch themselves or a later cell; or a single-use Python iterator; or iterate f) under a pipeline of 0-2 "
-                "stages from map/filter/concat, walked by 2-3 consumer threads with scripts of first/rest/next/seq/count/"
+                "stages from map/filter/concat/take/drop/take-while/keep/two-collection map, walked by 2-3 consumer threads with scripts of first/rest/next/seq/count/"
                 "nth/iterate-all/realized?. Non-trivial = more than one hand-off AND (a cell's native mutex was contended "
                 "OR an injected fault fired); distinct = distinct (switch signature, workload).",
         "real": ["rust LazySeq/Cons/Sequence/SeqIterator/to_seq (built from /repo/rust at this tree)", "basilisp.lang.seq",
@@ -188,6 +190,19 @@ def _pred(x):
     return x % 20 == 0
 
 
+TAKE_K = 3
+DROP_K = 2
+MAP2_VEC = [100, 200, 300, 400]
+
+
+def _tw(x):
+    return x < 45
+
+
+def _keepf(x):
+    return None if x % 30 == 10 else x + 2
+
+
 def _stage_ref(stage, inp):
     if stage == "map":
         return [x + 1 for x in inp]
@@ -195,18 +210,47 @@ def _stage_ref(stage, inp):
         return [x for x in inp if _pred(x)]
     if stage == "concat":
         return list(inp) + [9000, 9010]
+    if stage == "take":
+        return list(inp[:TAKE_K])
+    if stage == "drop":
+        return list(inp[DROP_K:])
+    if stage == "take-while":
+        out = []
+        for x in inp:
+            if not _tw(x):
+                break
+            out.append(x)
+        return out
+    if stage == "map2":
+        return [a + b for a, b in zip(inp, MAP2_VEC)]
+    if stage == "keep":
+        return [_keepf(x) for x in inp if _keepf(x) is not None]
     raise ValueError(stage)
 
 
 def _stage_need(stage, inp, j):
     """Input index that must be available (len(inp) = 'the end must have been seen') for output index j."""
+    n = len(inp)
     if stage == "map":
-        return min(j, len(inp))
+        return min(j, n)
     if stage == "filter":
         idx = [i for i, x in enumerate(inp) if _pred(x)]
-        return idx[j] if j < len(idx) else len(inp)
+        return idx[j] if j < len(idx) else n
+    if stage == "keep":
+        idx = [i for i, x in enumerate(inp) if _keepf(x) is not None]
+        return idx[j] if j < len(idx) else n
     if stage == "concat":
-        return j if j < len(inp) else len(inp)
+        return j if j < n else n
+    if stage == "take":
+        # cell k of (take k s) answers "empty" without touching s
+        return min(j, TAKE_K - 1, n)
+    if stage == "drop":
+        return min(j + DROP_K, n)
+    if stage == "take-while":
+        ref = _stage_ref(stage, inp)
+        return j if j < len(ref) else min(len(ref), n)
+    if stage == "map2":
+        return min(j, len(MAP2_VEC), n)
     raise ValueError(stage)
 
 
@@ -353,13 +397,39 @@ def run(workload, k):
             return _pred(x)
         return pred
 
+    def mk_fn(si, tag, fn):
+        def g(x):
+            st["fcalls"][(f"{tag}@{si}", x)] = st["fcalls"].get((f"{tag}@{si}", x), 0) + 1
+            P.point(tag)
+            return fn(x)
+        return g
+
+    def mk_fn2(si):
+        def g(a, b):
+            st["fcalls"][(f"map2@{si}", a)] = st["fcalls"].get((f"map2@{si}", a), 0) + 1
+            P.point("map2")
+            return a + b
+        return g
+
     for si, s in enumerate(workload["pipeline"]):
         if s == "map":
             head = _fns["map"](mk_mapf(si), head)
         elif s == "filter":
             head = _fns["filter"](mk_pred(si), head)
-        else:
+        elif s == "concat":
             head = _fns["concat"](head, [9000, 9010])
+        elif s == "take":
+            head = _fns["take"](TAKE_K, head)
+        elif s == "drop":
+            head = _fns["drop"](DROP_K, head)
+        elif s == "take-while":
+            head = _fns["take-while"](mk_fn(si, "tw", _tw), head)
+        elif s == "map2":
+            head = _fns["map"](mk_fn2(si), head, _st["vec"].vector(MAP2_VEC))
+        elif s == "keep":
+            head = _fns["keep"](mk_fn(si, "keep", _keepf), head)
+        else:
+            raise ValueError(s)
 
     ops_log = []
 
